@@ -291,6 +291,10 @@ func (sv *ECDSASignatureVerifier) Verify(pubKey *PublicKey, msg, signature []byt
 		return errors.New("ecdsa: invalid public key type")
 	}
 
+	if ecdsaPubKey.Curve == nil || ecdsaPubKey.Curve.Params().N.Cmp(ec.curve.Params().N) != 0 {
+		return errors.New("ecdsa: public key curve does not match the signature algorithm")
+	}
+
 	if len(signature) < 2*ec.keySize {
 		return errors.New("ecdsa: invalid signature size")
 	}
